@@ -845,8 +845,14 @@ func (rt *runtime) cmplParse(filename string, src, sm interface{}) (*nodeProgram
 func (rt *runtime) parseSource(src, sm interface{}) (*nodeProgram, *ast.Program, error) {
 	switch src := src.(type) {
 	case *ast.Program:
+		if src == nil {
+			return nil, nil, errors.New("invalid src: nil *ast.Program")
+		}
 		return nil, src, nil
 	case *Script:
+		if src == nil || src.program == nil {
+			return nil, nil, errors.New("invalid src: nil or empty *Script")
+		}
 		return src.program, nil, nil
 	}
 
